@@ -53,7 +53,17 @@
       identical result), `sig_capacity_small` (an array too small against a larger one: Trunc, or exactly the same
       result — both occur), `sig_capacity` (both, for two runs from Init with any capacities over any chunk schedule).
 
+  Scope notes (found by a sceptical review): "replies yield no signature" is `reply_no_signature` under
+  `m.request = false`; the code decides request / reply by `Status == 0`, so the ill-formed status line `SIP/2.0 000 x`
+  (accepted, C08) counts as a request and DOES get a signature — recorded as an observation about ill-formed input. The
+  `edit_*` corollaries compare `getMsgSig (withHdrs m …)` with `getMsgSig m` on one frozen buffer / values object: they are
+  statements about the stored header LIST; the statement about two parsed messages is `same_view_same_signature
+  (_unconditional)` (its hypotheses are equalities of `get?` Options — both `none` is allowed and means both fields
+  unreadable, which (8) + C04 exclude after a successful parse). `sig_chunking*` / `sig_capacity` assume zeroed caller
+  arrays and buffers ≤ 65,535 bytes; `sig_capacity` the same recorded length and cap1 ≤ cap2.
   NOT proved here:
+  * no theorem relates two BYTE messages that differ by an inserted / removed / changed header line (that composition —
+    C07 / HdrTyped blocks + C11 shifts + `same_view_same_signature_unconditional` — is carried out by the metamorphic oracle);
   (8) the coverage hypothesis discharged (`Sipsp.Proofs.SigCovered`): `covered_any_values(_new)`: after ParseHeaders
       says OK — ANY values object, typed headers included, any capacity — the flag word covers the fingerprinted stored
       types; `covered_after_parse`, `covered_after_history`, `covered_schedule_init`: `Covered m` after EVERY successful
